@@ -299,7 +299,8 @@ def solver_call(repo, tier, seed):
                     "backend": "ast", "seconds": 0, "detail": detail, "goal": name,
                     "replay_verdict": None if ok else "violation", "replay": None if ok else {"verdict": "violates-natively", "detail": detail}})
 
-    run = fns["run_optimizations_on_constraints"]
+    from contracts import astscan
+    run = astscan.flat_function(fns, fns["run_optimizations_on_constraints"])  # private helpers spliced in
     body = run.body
     solves = [n for n in ast.walk(run) if isinstance(n, ast.Call) and isinstance(n.func, ast.Attribute) and n.func.attr == "solve"]
     first = solves[0] if solves else None
@@ -331,8 +332,8 @@ def solver_call(repo, tier, seed):
     ok_order = "read" in order and order.index("solve") < order.index("read") and all(i > order.index("read") for i, x in enumerate(order) if x == "later")
     rec("reported_value_is_objective_of_first_solve", ok_ret and ok_order, f"order={order}; return={[ast.unparse(r.value) for r in ret]}")
     for fn, sense_model in (("optimize_to_humans", "to_humans"), ("optimize_feed_to_animals", "to_animals")):
-        f = fns[fn]
-        txt = ast.unparse(f)
+        f = astscan.flat_function(fns, fns[fn])
+        txt = astscan.closure_text(fns, fns[fn])  # the method and every private helper it calls
         ok = "sense=LpMaximize" in txt and f"optimization_type='{sense_model}'" in txt and "percent_fed_from_model = self.run_optimizations_on_constraints(" in txt
         r = [n for n in ast.walk(f) if isinstance(n, ast.Return)]
         ok4 = len(r) == 1 and isinstance(r[0].value, ast.Tuple) and len(r[0].value.elts) == 4 and ast.unparse(r[0].value.elts[3]) == "percent_fed_from_model"
